@@ -433,6 +433,8 @@ def _reductions(test: ast.AST, pol: int = 1):
                 yield test, q
         elif last in ("bool", "item") and isinstance(test.func, ast.Attribute):
             yield from _reductions(test.func.value, pol)
+        elif f == "bool" and len(test.args) == 1:
+            yield from _reductions(test.args[0], pol)
 
 
 def check_exist(prog: Program, res: Result) -> None:
@@ -454,7 +456,7 @@ def check_exist(prog: Program, res: Result) -> None:
         for st in walk_function(fi.node):
             if not isinstance(st, ast.If) or astq.enclosing_loops(st):
                 continue
-            reds = list(_reductions(st.test))
+            reds = list(_reductions(astq.expand_at(fi.node, st.test, st)))   # a named quantifier (`none = isnan(p).all()`) is read at its definition
             if not reds:
                 continue
             then_ret = any(isinstance(x, ast.Return) for x in st.body)
